@@ -39,13 +39,9 @@ theorem hyp_kvec_sound (k : Int) (h : kvec T Z k = true) : KVecOk T Z k := by
   simp only [Bool.and_eq_true, Bool.or_eq_true, decide_eq_true_eq] at h
   exact ⟨h.1, fun hc => (h.2.resolve_left hc).1, fun hc => (h.2.resolve_left hc).2⟩
 
-theorem hyp_kall_sound (h : kall T Z = true) :
-    KAllOk T Z ∧ ∀ k : Int, 28 ≤ k → k < 31 → T.Electron_Config_Kissel Z.toNat k.toNat < 1.0e-6 := by
+theorem hyp_kall_sound (h : kall T Z = true) : KAllOk T Z := by
   unfold kall at h
-  rw [Bool.and_eq_true] at h
-  have hq : ∀ k : Int, 28 ≤ k → k < 31 → T.Electron_Config_Kissel Z.toNat k.toNat < 1.0e-6 := fun k h0 h1 => by
-    simpa using allI_spec h.2 k h0 h1
-  exact ⟨⟨fun k h0 h1 => hyp_kvec_sound T Z k (allI_spec h.1 k h0 h1), fun k h0 h1 => le_of_lt (hq k h0 h1)⟩, hq⟩
+  exact ⟨fun k h0 h1 => hyp_kvec_sound T Z k (allI_spec h k h0 h1)⟩
 
 theorem hyp_uoccup_sound (h : uoccup T Z = true) :
     (0 < T.NShells_ComptonProfiles Z.toNat → (T.UOCCUP_ComptonProfiles Z.toNat).len = T.NShells_ComptonProfiles Z.toNat) ∧
